@@ -61,7 +61,7 @@ func roleOf(fn string) string {
 		return "arch"
 	case strings.HasSuffix(fn, "dastard.CoreLoop"):
 		return "core"
-	case strings.Contains(fn, "scen.(*runner)"):
+	case strings.Contains(fn, "scen.(*runner)"), strings.HasSuffix(fn, "c17/scen.Run"):
 		return "rpc"
 	}
 	return ""
@@ -119,6 +119,9 @@ func (l *Logger) Point(name string) {
 	}
 }
 
+// Started is logged when Start has returned: from here on the run is the one the model describes.
+func (l *Logger) Started() { l.add("client:started", false, true) }
+
 // ClientReturn is logged by the client goroutine when a request has returned.
 func (l *Logger) ClientReturn() { l.add("client:return", false, true) }
 
@@ -161,6 +164,7 @@ type tr struct {
 	xidx     map[int64]int
 	xnext    int
 	simple   bool // simulated source: the producer sends blocks itself
+	started  bool // Start has returned
 	unknown  []string
 }
 
@@ -201,6 +205,8 @@ func (t *tr) one(ev RawEv) {
 		case ev.Loc == "abaco:extractExternalTriggers":
 			t.e("w_ tR lETrig")
 			t.e("r_ tR lTiming")
+		case ev.Loc == "abaco:lastread":
+			t.e("w_ tR lTiming")
 		case ev.Loc == "sync:buffersChan" && ev.W:
 			t.allSegs("tR", t.rk, "w_")
 			t.e("w_ tR (lHdr %d)", t.rk)
@@ -279,6 +285,7 @@ func (t *tr) one(ev RawEv) {
 			t.e("r_ tC lArch")
 			t.allSegs("tC", k, "r_")
 			t.e("w_ tC lArch")
+			t.e("w_ tC (lSnap %d)", t.aj)
 		case ev.Loc == "sync:archive:complete" && ev.W:
 			t.e("w_ tC lArch")
 			t.e("w_ tC (lSnap %d)", t.aj)
@@ -293,6 +300,10 @@ func (t *tr) one(ev RawEv) {
 			}
 			t.ph++
 			t.forked = nil
+		case ev.Loc == "procs" && !ev.W: // ComputeFullTriggerState inside a request closure
+			for i := 0; i < t.n; i++ {
+				t.e("r_ tC (lProc %d)", i)
+			}
 		case ev.Loc == "procs":
 			for i := 0; i < t.n; i++ {
 				t.e("w_ tC (lProc %d)", i)
@@ -366,6 +377,17 @@ func (t *tr) one(ev RawEv) {
 			t.e("rel_ tQ (mReq %d)", t.reqSent)
 			t.reqSent++
 			t.pending = true
+		case ev.Loc == "client:started":
+			t.started = true
+		case ev.Loc == "procs" && !ev.W:
+			// ComputeFullTriggerState on the client's thread: Start does this (before the run the model
+			// describes: PrepareRun leaves the processors in a state the workers only read); afterwards
+			// it is an access like any other
+			if t.started {
+				for i := 0; i < t.n; i++ {
+					t.e("r_ tQ (lProc %d)", i)
+				}
+			}
 		case ev.Loc == "client:return":
 			if t.pending {
 				if t.resSent < t.reqSent { // the core loop's own record of the reply comes later
@@ -387,7 +409,7 @@ func (t *tr) one(ev RawEv) {
 			t.e("r_ tQ lWsCnt")
 			t.e("r_ tQ lWsPaused")
 			t.e("rel_ tQ mWs")
-		case ev.Loc == "abaco:distributePackets", ev.Loc == "abaco:extractExternalTriggers", ev.Loc == "arch":
+		case ev.Loc == "abaco:distributePackets", ev.Loc == "abaco:extractExternalTriggers", ev.Loc == "arch", ev.Loc == "abaco:lastread":
 			// Sample() / Stop() on the client's goroutine, before the source's goroutines exist or after
 			// they are gone: outside the run that the model describes
 		default:
